@@ -192,7 +192,7 @@ func nsApplyOp(rt *rapid.T, h *nsHist, op string) {
 		if len(hist) == 0 {
 			return
 		}
-		p := hist[rapid.IntRange(0, len(hist)-1).Draw(rt, "replay.idx")]
+		p := nsPickByClass(rt, hist, "replay")
 		from := p.From
 		if rapid.IntRange(0, 3).Draw(rt, "replay.foreign") == 0 {
 			from = netip.AddrPortFrom(netip.AddrFrom4([4]byte{192, 0, 2, byte(1 + rapid.IntRange(0, 3).Draw(rt, "replay.src"))}), 5555)
@@ -283,7 +283,7 @@ func nsDeliverUnauth(rt *rapid.T, h *nsHist, p *nsPacket, from, to netip.AddrPor
 	preTun := s.tunOutLen(x)
 	cp := &nsPacket{ID: p.ID, From: from, To: to, Data: p.Data, Src: p.Src}
 	s.deliver(cp)
-	if genuine && !alreadyConsumed {
+	if genuine && !alreadyConsumed && okh && nsConsumed(x, hd) {
 		h.markDelivered(p, x.idx)
 	}
 	if mustBeInert {
@@ -330,7 +330,7 @@ func nsMutateOp(rt *rapid.T, h *nsHist) {
 	if len(enc) > 0 && rapid.IntRange(0, 9).Draw(rt, "mut.enc") < 8 {
 		pool = enc
 	}
-	p := pool[rapid.IntRange(0, len(pool)-1).Draw(rt, "mut.idx")]
+	p := nsPickByClass(rt, pool, "mut")
 	if len(p.Data) < header.Len {
 		return
 	}
@@ -485,4 +485,51 @@ func (h *nsHist) countWire(pred func(header.H) bool) int {
 		}
 	}
 	return n
+}
+
+// nsPickByClass picks a packet by first choosing a (type, subtype) class uniformly and then a
+// packet of that class, so rare kinds (relay, control, lighthouse, close) are exercised as often
+// as the abundant ones.
+func nsPickByClass(rt *rapid.T, pkts []*nsPacket, label string) *nsPacket {
+	classes := map[int][]*nsPacket{}
+	var keys []int
+	for _, q := range pkts {
+		k := -1
+		if qh, ok := nsHeaderOf(q.Data); ok {
+			k = int(qh.Type)<<8 | int(qh.Subtype)
+		}
+		if _, ok := classes[k]; !ok {
+			keys = append(keys, k)
+		}
+		classes[k] = append(classes[k], q)
+	}
+	for i := 1; i < len(keys); i++ {
+		for j := i; j > 0 && keys[j] < keys[j-1]; j-- {
+			keys[j], keys[j-1] = keys[j-1], keys[j]
+		}
+	}
+	c := classes[keys[rapid.IntRange(0, len(keys)-1).Draw(rt, label+".class")]]
+	return c[rapid.IntRange(0, len(c)-1).Draw(rt, label+".idx")]
+}
+
+// nsConsumed reports whether node x has accepted counter hd.MessageCounter on the tunnel (or relay
+// tunnel) that hd.RemoteIndex names: its replay window no longer admits the counter. Only then is a
+// further copy of the packet required to be inert.
+func nsConsumed(x *nsNode, hd header.H) bool {
+	hm := x.ctrl.f.hostMap
+	hm.RLock()
+	var t *HostInfo
+	if hd.Type == header.Message && hd.Subtype == header.MessageRelay {
+		t = hm.Relays[hd.RemoteIndex]
+	} else {
+		t = hm.Indexes[hd.RemoteIndex]
+	}
+	hm.RUnlock()
+	if t == nil || t.ConnectionState == nil {
+		return false
+	}
+	cs := t.ConnectionState
+	cs.decryptLock.Lock()
+	defer cs.decryptLock.Unlock()
+	return !cs.window.Check(x.ctrl.l, hd.MessageCounter)
 }
